@@ -1856,6 +1856,13 @@ def _make_configurable(fn_or_cls,
       allowlist=allowlist,
       denylist=denylist,
       selector=selector)
+  if selector in _REGISTRY:
+    # (Interactive mode.) An object that loses its name to another one is no
+    # longer registered: looking it up must not lead to the newcomer.
+    displaced = _REGISTRY[selector].wrapped
+    if (displaced is not fn_or_cls and displaced in _INVERSE_REGISTRY and
+        _INVERSE_REGISTRY[displaced].selector == selector):
+      del _INVERSE_REGISTRY[displaced]
   _REGISTRY[selector] = configurable_info
   _INVERSE_REGISTRY[fn_or_cls] = configurable_info
   return decorated_fn_or_cls
